@@ -19,12 +19,12 @@
 
    Integers in TLC are 32 bit.  Byte quantities are pairs <<MiB, bytes>> ("limbs", base 2^20), cores are
    mcpu, storage grants are GiB.                                                                          *)
-EXTENDS Integers, Sequences, SequencesExt, FiniteSets, TLC, Json, IOUtils
+EXTENDS Integers, Sequences, SequencesExt, FiniteSets, FiniteSetsExt, TLC, Json, IOUtils
 
 Tables   == JsonDeserialize(IOEnv.RF_TABLES)
 Machines == Tables.machines    \* <<[cloud, name, cores, mem_mib, mem_rem]>>  every machine type the service knows
 Workers  == Tables.workers     \* <<[cloud, type, cores, ssd, machine, known]>>  the VM a pool of that shape runs on
-Thorough == IOEnv.RF_TIER = "thorough"
+Level    == IOEnv.RF_LEVEL      \* "model" | "quick" | "thorough": size of the universe below
 
 Clouds == {"gcp", "azure"}
 \* Facts about the clouds (not about the code): the largest persistent SSD one VM can have attached, in GiB.
@@ -69,21 +69,32 @@ Bytes(a) ==
 
 (* ---------------------------------------------------------------------------------------------------- *)
 (* What the tables say                                                                                    *)
+\* TLC keeps [x \in S |-> e] as an unevaluated lambda and re-evaluates e at every application; Tabulate builds the
+\* explicit table once (zero-arity constant definitions are evaluated once).
+Tabulate(S, Op(_)) == FoldSet(LAMBDA k, acc : (k :> Op(k)) @@ acc, << >>, S)
+
 Pow2       == {1, 2, 4, 8, 16, 32, 64, 128, 256}
 Pow2Mcpu   == {250, 500} \cup { 1000 * k : k \in Pow2 }        \* packable sizes: a quarter core times a power of two
 MachineSet == Range(Machines)
-HasMachine(cl, name) == \E m \in MachineSet : m.cloud = cl /\ m.name = name
-MachineRow(cl, name) == CHOOSE m \in MachineSet : m.cloud = cl /\ m.name = name
+MachineByKey == Tabulate({ << m.cloud, m.name >> : m \in MachineSet },
+                         LAMBDA k : CHOOSE m \in MachineSet : m.cloud = k[1] /\ m.name = k[2])
+HasMachine(cl, name) == << cl, name >> \in DOMAIN MachineByKey
+MachineRow(cl, name) == MachineByKey[<< cl, name >>]
 
 \* pool shapes the universe uses: power-of-two cores (InstanceConfig.quantified_resources asserts that for pools)
 \* whose VM type is in the machine table
 PoolWorkers == { w \in Range(Workers) : w.cores \in Pow2 /\ w.known }
 WorkerTypes(cl) == { w.type : w \in { x \in PoolWorkers : x.cloud = cl } }
-WorkerRow(p) == CHOOSE w \in PoolWorkers : w.cloud = p.cloud /\ w.type = p.type /\ w.cores = p.cores /\ w.ssd = p.ssd
-WorkerMemMiB(p) == MachineRow(p.cloud, WorkerRow(p).machine).mem_mib
-PerCoreMiB(cl, ty) ==
-  LET w == CHOOSE x \in PoolWorkers : x.cloud = cl /\ x.type = ty
-  IN  MachineRow(cl, w.machine).mem_mib \div w.cores
+Shape(x) == << x.cloud, x.type, x.cores, x.ssd >>
+\* memory (MiB) of the VM a pool of that shape runs on
+WorkerMem == Tabulate({ Shape(w) : w \in PoolWorkers },
+                      LAMBDA k : LET w == CHOOSE x \in PoolWorkers : Shape(x) = k IN MachineRow(w.cloud, w.machine).mem_mib)
+WorkerMemMiB(p) == WorkerMem[Shape(p)]
+\* memory per core (MiB) of a worker family, read off one of its machines
+PerCore == Tabulate({ << w.cloud, w.type >> : w \in PoolWorkers },
+                    LAMBDA k : LET w == CHOOSE x \in PoolWorkers : x.cloud = k[1] /\ x.type = k[2]
+                               IN  MachineRow(k[1], w.machine).mem_mib \div w.cores)
+PerCoreMiB(cl, ty) == PerCore[<< cl, ty >>]
 
 \* The tables are as uniform as the arithmetic below assumes (checked by TLC before anything else).
 TablesSane ==
@@ -95,13 +106,16 @@ TablesSane ==
   /\ \A cl \in Clouds : \A s, t \in WorkerTypes(cl) : s # t => PerCoreMiB(cl, s) # PerCoreMiB(cl, t)
 
 \* The named memory tiers mean: the cloud's worker family with the least / middle / most memory per core.
-TierType(cl, tier) ==
-  LET T == WorkerTypes(cl)
+Tiers == {"lowmem", "standard", "highmem"}
+TierTypes == Tabulate(Clouds \X Tiers, LAMBDA k :
+  LET cl == k[1]
+      T  == WorkerTypes(cl)
       lo == CHOOSE t \in T : \A s \in T : PerCoreMiB(cl, t) <= PerCoreMiB(cl, s)
       hi == CHOOSE t \in T : \A s \in T : PerCoreMiB(cl, t) >= PerCoreMiB(cl, s)
-  IN  CASE tier = "lowmem"   -> lo
-        [] tier = "highmem"  -> hi
-        [] tier = "standard" -> CHOOSE t \in T : t # lo /\ t # hi
+  IN  CASE k[2] = "lowmem"   -> lo
+        [] k[2] = "highmem"  -> hi
+        [] k[2] = "standard" -> CHOOSE t \in T : t # lo /\ t # hi)
+TierType(cl, tier) == TierTypes[<< cl, tier >>]
 
 (* ---------------------------------------------------------------------------------------------------- *)
 (* Records                                                                                                *)
@@ -132,24 +146,24 @@ Matches(p, q) ==
   /\ p.cloud = q.cloud /\ p.pre = q.pre /\ p.label = q.label
   /\ (q.tier # "" => p.type = TierType(q.cloud, q.tier))
 
-\* a share of c mcpu of a worker of pool p holds the requested memory
-MemCovered(c, p, q) ==
-  IF q.tier # "" THEN TRUE
-  ELSE LET need == Bytes(q.mem)
-           g    == c * PerCoreMiB(p.cloud, p.type)          \* thousandths of MiB
-       IN  IF need[1] > 2000000 THEN FALSE
-           ELSE LET d == g - 1000 * need[1]
-                IN  IF d < 0 THEN FALSE ELSE IF d >= 1000 THEN TRUE ELSE need[2] * 1000 <= d * B
+\* a share of c mcpu of a worker of pool p holds `need` bytes of memory
+MemCovered(c, p, need) ==
+  LET g == c * PerCoreMiB(p.cloud, p.type)          \* thousandths of MiB
+  IN  IF need[1] > 2000000 THEN FALSE
+      ELSE LET d == g - 1000 * need[1]
+           IN  IF d < 0 THEN FALSE ELSE IF d >= 1000 THEN TRUE ELSE need[2] * 1000 <= d * B
 
+MemNeed(q) == IF q.tier # "" THEN << 0, 0 >> ELSE Bytes(q.mem)     \* a named tier asks for the family, not an amount
 StorageWithinLimit(q) == Geq(<< MaxDiskGiB[q.cloud] * 1024, 0 >>, Bytes(q.sto))
 
 \* the packable sizes of pool p that cover the request
-Covering(p, q) == { c \in { x \in Pow2Mcpu : x <= 1000 * p.cores } : c >= q.cpu /\ MemCovered(c, p, q) }
-PoolCanServe(p, q) == Matches(p, q) /\ Covering(p, q) # {} /\ StorageWithinLimit(q)
+Covering(p, q, need) == { c \in { x \in Pow2Mcpu : x <= 1000 * p.cores } : c >= q.cpu /\ MemCovered(c, p, need) }
+PoolCanServe(p, q, need) == Matches(p, q) /\ Covering(p, q, need) # {}
 
 Satisfiable(cfg, q) ==
   IF q.kind = "pool"
-  THEN \E i \in DOMAIN cfg.pools : PoolCanServe(cfg.pools[i], q)
+  THEN /\ StorageWithinLimit(q)
+       /\ LET need == MemNeed(q) IN \E i \in DOMAIN cfg.pools : PoolCanServe(cfg.pools[i], q, need)
   ELSE cfg.jp = q.cloud /\ HasMachine(q.cloud, q.machine) /\ StorageWithinLimit(q)
 
 PlacedOk(cfg, q, o) ==
@@ -175,41 +189,44 @@ Ok(cfg, q, o) ==
     [] OTHER            -> FALSE                      \* neither placed nor rejected (exception)
 
 (* ---------------------------------------------------------------------------------------------------- *)
-(* The bounded universe                                                                                   *)
-CpuValid   == IF Thorough THEN {250, 500, 1000, 2000, 4000, 8000, 16000, 32000, 64000, 128000}
-                          ELSE {250, 1000, 4000, 16000, 64000}
-CpuInvalid == IF Thorough THEN {125, 750, 1500, 3000, 6000} ELSE {750, 3000}     \* exact binary fractions, not packable
-BoundaryCpu == IF Thorough THEN {250, 500, 1000, 2000, 4000, 8000, 16000, 32000, 64000} ELSE {250, 1000, 16000}
+(* The bounded universe.  Level "model" is the small universe ResourceFitAlg is checked on in the quick tier,  *)
+(* "quick" / "thorough" are the universes driven through the real code.                                     *)
+Pick(model, quick, thorough) == CASE Level = "model" -> model [] Level = "quick" -> quick [] OTHER -> thorough
+
+CpuValid    == Pick({250, 2000, 64000}, {250, 1000, 16000, 64000},
+                    {250, 500, 1000, 2000, 4000, 8000, 16000, 32000, 64000, 128000})
+CpuInvalid  == Pick({750}, {750}, {125, 750, 1500, 3000, 6000})       \* exact binary fractions that are not packable
+BoundaryCpu == Pick({1000}, {250, 1000, 16000}, {250, 500, 1000, 2000, 4000, 8000, 16000, 32000, 64000})
 
 \* memory amounts: a fixed spread, plus - derived from the tables - the amount at which each packable size of each
 \* worker family is exactly full, one MiB more, and one byte more
 Boundaries(cl) == { (c * PerCoreMiB(cl, ty)) \div 1000 : c \in BoundaryCpu, ty \in WorkerTypes(cl) }
-BaseMem == IF Thorough
-           THEN {Amt(1, 0, ""), Amt(1, 0, "Mi"), Amt(1, 0, "G"), Amt(1, 0, "Gi"), Amt(3, 75, "Gi"), Amt(6, 50, "Gi"),
+BaseMem == Pick({Amt(1, 0, "G"), Amt(26, 1, "Gi"), Amt(1, 0, "Ti")},
+                {Amt(1, 0, "Mi"), Amt(1, 0, "G"), Amt(3, 75, "Gi"), Amt(26, 1, "Gi"), Amt(100, 0, "G"), Amt(1, 0, "Ti")},
+                {Amt(1, 0, ""), Amt(1, 0, "Mi"), Amt(1, 0, "G"), Amt(1, 0, "Gi"), Amt(3, 75, "Gi"), Amt(6, 50, "Gi"),
                  Amt(7, 0, "Gi"), Amt(8, 0, "G"), Amt(26, 1, "Gi"), Amt(100, 0, "G"), Amt(417, 0, "Gi"),
                  Amt(512, 0, "Gi"), Amt(1, 0, "Ti"), Amt(0, 10, "Gi"), Amt(999, 99, "M"), Amt(2000000, 0, "K"),
-                 Amt(2047, 0, "T")}
-           ELSE {Amt(1, 0, "Mi"), Amt(1, 0, "G"), Amt(3, 75, "Gi"), Amt(26, 1, "Gi"), Amt(100, 0, "G"), Amt(1, 0, "Ti")}
+                 Amt(2047, 0, "T")})
 MemAmounts(cl) ==
   BaseMem \cup { Amt(b, 0, "Mi") : b \in Boundaries(cl) } \cup { Amt(b + 1, 0, "Mi") : b \in Boundaries(cl) }
           \cup { Amt(b * B + 1, 0, "") : b \in { x \in Boundaries(cl) : x < 2040 } }
-Tiers == {"lowmem", "standard", "highmem"}
 
-StoAmounts == IF Thorough
-              THEN {Amt(0, 0, ""), Amt(0, 0, "Gi"), Amt(1, 0, ""), Amt(1, 0, "Gi"), Amt(10, 0, "Gi"), Amt(10, 1, "Gi"),
-                    Amt(10, 0, "G"), Amt(11, 0, "G"), Amt(375, 0, "Gi"), Amt(1, 50, "Ti"), Amt(32, 0, "Ti"),
-                    Amt(32769, 0, "Gi"), Amt(64, 0, "Ti"), Amt(65537, 0, "Gi"), Amt(100, 0, "T")}
-              ELSE {Amt(0, 0, ""), Amt(10, 1, "Gi"), Amt(11, 0, "G"), Amt(32, 0, "Ti"), Amt(32769, 0, "Gi"),
-                    Amt(65537, 0, "Gi")}
+StoAmounts == Pick({Amt(0, 0, ""), Amt(10, 1, "Gi"), Amt(32769, 0, "Gi"), Amt(65537, 0, "Gi")},
+                   {Amt(0, 0, ""), Amt(10, 1, "Gi"), Amt(11, 0, "G"), Amt(32769, 0, "Gi"), Amt(65537, 0, "Gi")},
+                   {Amt(0, 0, ""), Amt(0, 0, "Gi"), Amt(1, 0, ""), Amt(1, 0, "Gi"), Amt(10, 0, "Gi"), Amt(10, 1, "Gi"),
+                    Amt(11, 0, "G"), Amt(375, 0, "Gi"), Amt(1, 50, "Ti"), Amt(32, 0, "Ti"),
+                    Amt(32769, 0, "Gi"), Amt(64, 0, "Ti"), Amt(65537, 0, "Gi"), Amt(100, 0, "T")})
 
 \* -- sizing: one cloud, pools all preemptible with the empty label, every size combination
 SizeReqs(cl) ==
   { PoolReq(cl, cpu, "", mem, sto, TRUE, "") : cpu \in CpuValid \cup CpuInvalid, mem \in MemAmounts(cl), sto \in StoAmounts }
   \cup { PoolReq(cl, cpu, t, NoAmt, sto, TRUE, "") : cpu \in CpuValid \cup CpuInvalid, t \in Tiers, sto \in StoAmounts }
 SizePool(w) == Pool(w.cloud, w.type, w.cores, TRUE, "", w.ssd)
-SizeSingles(cl) == { << SizePool(w) >> : w \in { x \in PoolWorkers : x.cloud = cl /\ (Thorough \/ x.ssd) } }
+SingleCores == Pick({1, 2, 16}, Pow2, Pow2)
+SizeSingles(cl) == { << SizePool(w) >> : w \in { x \in PoolWorkers : x.cloud = cl /\ x.cores \in SingleCores
+                                                                  /\ (Level = "thorough" \/ x.ssd) } }
 SizePalette(cl) == { SizePool(w) : w \in { x \in PoolWorkers : x.cloud = cl /\ x.ssd /\ x.cores \in {2, 16} } }
-SizeMulti(cl) == { SetToSeq(S) : S \in { T \in SUBSET SizePalette(cl) : Cardinality(T) \in {2, 3} } }
+SizeMulti(cl) == { SetToSeq(S) : S \in { T \in SUBSET SizePalette(cl) : Cardinality(T) \in Pick({3}, {2, 3}, {2, 3}) } }
 SizeSuite(cl) == [name |-> "size-" \o cl,
                   cfgs |-> SetToSeq({ Cfg(cl, ps) : ps \in SizeSingles(cl) \cup SizeMulti(cl) }),
                   reqs |-> SetToSeq(SizeReqs(cl))]
@@ -217,16 +234,19 @@ SizeSuite(cl) == [name |-> "size-" \o cl,
 \* -- matching: pools of both clouds, both preemptibilities, two labels; few sizes
 MatchPalette == { Pool(cl, TierType(cl, t), 4, pre, lab, TRUE) :
                     cl \in Clouds, t \in {"standard", "highmem"}, pre \in BOOLEAN, lab \in {"", "a"} }
-MatchSets == { S \in SUBSET MatchPalette : Cardinality(S) \in (IF Thorough THEN {1, 2, 3} ELSE {1, 2}) }
+MatchSets == { S \in SUBSET MatchPalette : Cardinality(S) \in Pick({2}, {1, 2}, {1, 2, 3}) }
 MatchReqs == { PoolReq(cl, cpu, t, Amt(1, 0, "Gi"), Amt(0, 0, ""), pre, lab) :
                  cl \in Clouds, cpu \in {1000, 8000}, t \in Tiers \cup {""}, pre \in BOOLEAN, lab \in {"", "a"} }
 MatchSuite == [name |-> "match",
                cfgs |-> SetToSeq({ Cfg("gcp", SetToSeq(S)) : S \in MatchSets }),
                reqs |-> SetToSeq(MatchReqs)]
 
-\* -- job-private: every machine type of both clouds (and the other cloud's names as unknown types)
-PrivSto == {Amt(0, 0, ""), Amt(1, 0, "Gi"), Amt(10, 1, "Gi"), Amt(375, 0, "G"), Amt(32, 0, "Ti"), Amt(32769, 0, "Gi"),
-            Amt(65537, 0, "Gi")}
+\* -- job-private: every machine type of both clouds (the other cloud's names are unknown types)
+PrivSto == Pick({Amt(0, 0, ""), Amt(32769, 0, "Gi"), Amt(65537, 0, "Gi")},
+                {Amt(0, 0, ""), Amt(1, 0, "Gi"), Amt(10, 1, "Gi"), Amt(375, 0, "G"), Amt(32, 0, "Ti"), Amt(32769, 0, "Gi"),
+                 Amt(65537, 0, "Gi")},
+                {Amt(0, 0, ""), Amt(1, 0, "Gi"), Amt(10, 1, "Gi"), Amt(375, 0, "G"), Amt(32, 0, "Ti"), Amt(32769, 0, "Gi"),
+                 Amt(64, 0, "Ti"), Amt(65537, 0, "Gi"), Amt(100, 0, "T")})
 PrivReqs == { PrivReq(cl, m.name, sto, pre) : cl \in Clouds, m \in MachineSet, sto \in PrivSto, pre \in BOOLEAN }
 PrivSuite == [name |-> "private",
               cfgs |-> SetToSeq({ Cfg(jp, << Pool(jp, TierType(jp, "standard"), 16, TRUE, "", TRUE) >>) : jp \in Clouds }),
